@@ -502,3 +502,160 @@ class ApplyCategoryFilters(Contract):
             got, rowok = TS(s, i, j), z3.BoolVal(True)
         return [('returns-arguments', z3.BoolVal(True)), ('frame', z3.And(frame, rowok)),
                 ('cell', z3.ForAll([j], z3.Implies(z3.And(j >= 0, j < nt), got == want)))]
+
+
+# ------------------------------------------------------------------------------ _type_check (C11: shapes are rejected before any parsing)
+NTOK = z3.Function('tc_num_tokens', I_, I_)           # len(doc[s])
+TROWS = z3.Function('tc_tag_rows', I_, I_)            # tag_scores.shape of score_results[s]
+TCOLS = z3.Function('tc_tag_cols', I_, I_)
+DROWS = z3.Function('tc_dep_rows', I_, I_)
+DCOLS = z3.Function('tc_dep_cols', I_, I_)
+
+
+class TCDoc:
+    """doc: a non-empty list of non-empty lists of Token"""
+    def __init__(self, n):
+        self.n = n
+
+    def isinstance_of(self, I, t, node):
+        return t is list
+
+    def length(self, I, node):
+        return Z(self.n)
+
+    def getitem(self, I, k, node):
+        if k == 0:
+            return TCSentence(z3.IntVal(0))
+        raise CheckerError('doc[k] for k != 0')
+
+    def zip_with(self, I, others, node):
+        if len(others) != 1 or not isinstance(others[0], TCScores):
+            raise CheckerError('zip(doc, ...) with something else than score_results')
+        return TCLoop(self, others[0])
+
+
+class TCSentence:
+    def __init__(self, s):
+        self.s = s
+
+    def isinstance_of(self, I, t, node):
+        return t is list
+
+    def length(self, I, node):
+        return Z(NTOK(self.s))
+
+    def getitem(self, I, k, node):
+        if k == 0:
+            return TCToken()
+        raise CheckerError('doc[0][k] for k != 0')
+
+
+class TCToken:
+    def isinstance_of(self, I, t, node):
+        return getattr(t, 'name', None) == 'Token'
+
+
+class TCScores:
+    def __init__(self, n):
+        self.n = n
+
+    def isinstance_of(self, I, t, node):
+        return t is list
+
+    def length(self, I, node):
+        return Z(self.n)
+
+    def getitem(self, I, k, node):
+        if k == 0:
+            return TCScore(z3.IntVal(0))
+        raise CheckerError('score_results[k] for k != 0')
+
+
+class TCScore:
+    def __init__(self, s):
+        self.s = s
+
+    def isinstance_of(self, I, t, node):
+        return getattr(t, 'name', None) == 'ScoringResult'
+
+    def unpack(self, I, n, node):
+        if n != 2:
+            raise PyRaise('ValueError', 'unpack', node)
+        return [TCMatrix(TROWS(self.s), TCOLS(self.s)), TCMatrix(DROWS(self.s), DCOLS(self.s))]
+
+
+class TCMatrix:
+    def __init__(self, rows, cols):
+        self.rows, self.cols = rows, cols
+
+    def getattr(self, I, name, node):
+        if name == 'shape':
+            return (Z(self.rows), Z(self.cols))
+        raise CheckerError(f'ndarray.{name}')
+
+
+class TCLoop:
+    """for tokens, (tag_scores, dep_scores) in zip(doc, score_results): one ARBITRARY sentence; a raise in it ends the function, normal completion lets
+    the function go on knowing the body completed for every sentence (recorded as the completion condition of the arbitrary one)"""
+    def __init__(self, doc, scores):
+        self.doc, self.scores = doc, scores
+
+    def for_loop(self, I, st, env, module, qual):
+        s = I.fresh('sentence', I_)
+        I.ctx.assume(z3.And(s >= 0, s < self.doc.n))
+        I.ctx.tc_sentence = s
+        I.assign(st.target, (TCSentence(s), TCScore(s)), env, module)
+        I.exec_block(st.body, env, module, qual)
+
+
+def fits(s, ntags):
+    return z3.And(TCOLS(s) == ntags, TROWS(s) == NTOK(s), DROWS(s) == NTOK(s), DCOLS(s) == NTOK(s) + 1)
+
+
+class TypeCheckFull(Contract):
+    """_type_check on a list of sentences and a list of score objects: raises RuntimeError iff the counts differ or some sentence does not fit its matrices"""
+    rel, qualname = REL, '_type_check'
+
+    def cases(self, I):
+        def build(I):
+            nd, ns, nt = z3.Int('n_doc'), z3.Int('n_scores'), z3.Int('n_tags')
+            doc, scores = TCDoc(nd), TCScores(ns)
+            self._pre = (doc, scores, nd, ns, nt)
+            return [doc, scores, SymCategories(nt)], {}, [nd >= 1, ns >= 1, nt >= 0, NTOK(z3.IntVal(0)) >= 1], None
+        yield Case('lists', build)
+
+    def post(self, I, case, args, result):
+        doc, scores, nd, ns, nt = self._pre
+        s = getattr(I.ctx, 'tc_sentence', None)
+        ok = isinstance(result, tuple) and len(result) == 2 and result[0] is doc and result[1] is scores
+        if s is None or not ok:
+            return [('returns-arguments', z3.BoolVal(False))]
+        # normal return: the counts agree and the arbitrary sentence fits (hence every sentence does)
+        return [('returns-arguments', z3.BoolVal(True)), ('accepted-only-if-fitting', z3.And(nd == ns, fits(s, nt)))]
+
+    def raises(self, I, case, args, exc):
+        doc, scores, nd, ns, nt = self._pre
+        if exc.exc != 'RuntimeError':
+            return None
+        s = getattr(I.ctx, 'tc_sentence', None)
+        # a RuntimeError is raised only for a real mismatch
+        return z3.Or(nd != ns, z3.Not(fits(s, nt))) if s is not None else nd != ns
+
+
+def run_call_order(prop):
+    """depccg/parsing.py::run: the shape check is the first statement, on the arguments as given, and everything that parses comes after it"""
+    import ast
+    from vc.pyvc import parse_source
+    tree = parse_source(REL)
+    fn = [n for n in tree.body if isinstance(n, ast.FunctionDef) and n.name == 'run']
+    ok, why = False, 'run not found'
+    if fn:
+        body = [s for s in fn[0].body if not (isinstance(s, ast.Expr) and isinstance(s.value, ast.Constant))]
+        first = body[0] if body else None
+        why = 'the first statement of run is not `doc, score_results = _type_check(doc, score_results, categories)`'
+        if (isinstance(first, ast.Assign) and isinstance(first.value, ast.Call) and ast.unparse(first.value.func) == '_type_check'
+                and [ast.unparse(a) for a in first.value.args] == ['doc', 'score_results', 'categories'] and not first.value.keywords
+                and ast.unparse(first.targets[0]) in ('(doc, score_results)', 'doc, score_results')):
+            ok, why = True, 'run checks the shapes of its arguments before anything else (no parsing call, no worker pool before _type_check returns)'
+    return [dict(name=f'{prop}/{REL}::run/call-order[_type_check first]', kind='call-site', verdict='discharged' if ok else 'failed', backend='ast', ms=0, inputs=None, detail=why,
+                 witness=dict(function=f'{REL}::run'))]
